@@ -6,6 +6,6 @@ T=$(mktemp -d /tmp/mut_XXXXXX)
 cp -r /repo/pexpect "$T/pexpect"
 ( cd "$T" && patch -p1 -s < "$D/patch.diff" ) || { echo "patch failed"; rm -rf "$T"; exit 9; }
 cd "$(dirname "$0")"
-SYMX_PEXPECT_ROOT="$T" ./vcheck "$P" "$@" 2>&1 | grep -v "^  obligation" | tail -6
+SYMX_PEXPECT_ROOT="$T" ./vcheck "$P" "$@" > "$T/out.log" 2>&1; echo "violations reported: $(grep -c "^VIOLATION" "$T/out.log")"; grep -v "^  obligation" "$T/out.log" | tail -6
 rc=$?
 rm -rf "$T"
